@@ -4,6 +4,7 @@ import (
 	"flag"
 	"fmt"
 	"math/rand"
+	"reflect"
 	"runtime"
 	"strings"
 	"sync/atomic"
@@ -218,6 +219,7 @@ func cmdV3Base(args []string) {
 			}
 		}
 	})
+	decodes += v3ExtraPass(recs[0], newRand(77), "B")
 	all := NewRecorder()
 	for _, r := range recs {
 		all.Merge(r)
@@ -325,6 +327,7 @@ func cmdV3Temporal(args []string) {
 			}
 		}
 	})
+	decodes += v3ExtraPass(recs[0], newRand(78), "T")
 	all := NewRecorder()
 	for _, r := range recs {
 		all.Merge(r)
@@ -337,4 +340,87 @@ func cmdV3Temporal(args []string) {
 func init() {
 	register("v3base", cmdV3Base)
 	register("v3temporal", cmdV3Temporal)
+}
+
+// ---------------------------------------------------------------------------
+// Sequential extra pass shared by C01, C02, C03 (the decodeOne hook and useNilReceiver are package-level variables):
+// every (version, base vector) with seeded optional metrics is decoded once more
+//
+//	(a) through typed nil receivers (the library documents Decode on a nil pointer), optional X metrics omitted, and
+//	(b) with a seeded query (Score, String, Severity, Encode, GetError) asked of the receiver at EVERY token boundary,
+//	    through the build-tag hook at the entry of decodeOne -- queries are read-only (C15), so the scores of the
+//	    finished object must be the ones of the equations all the same.
+//
+// lvl selects the score that is observed ("B", "T" or "E").
+// ---------------------------------------------------------------------------
+func hookQueries(rng *rand.Rand) func(string, any, string) {
+	return func(site string, recv any, arg string) {
+		defer func() { recover() }()
+		rv := reflect.ValueOf(recv)
+		if !rv.IsValid() || (rv.Kind() == reflect.Ptr && rv.IsNil()) {
+			return
+		}
+		name := []string{"Score", "String", "Severity", "Encode", "GetError", "Score"}[rng.Intn(6)]
+		if m := rv.MethodByName(name); m.IsValid() && m.Type().NumIn() == 0 {
+			m.Call(nil)
+		}
+	}
+}
+
+func v3ExtraPass(rec *Recorder, rng *rand.Rand, lvl string) int64 {
+	var n int64
+	nb := v3BaseCount()
+	for i := 0; i < nb*2; i++ {
+		ver := v3Versions[i%2].Label
+		var v v3Vec
+		v3SetFromIndex(&v, 0, v3NBase, i/2)
+		for _, mode := range []string{"nil-receiver", "queried-during-decode"} {
+			decs := map[string][]byte{"B": {'B', 'T', 'E'}, "T": {'T', 'E'}, "E": {'E'}}[lvl]
+			for _, dec := range decs {
+				upto := map[byte]int{'B': 8, 'T': 11, 'E': 22}[dec]
+				w2 := v
+				if upto > 8 {
+					randHigher(rng, &w2, 8, upto)
+				}
+				// the observed score depends on the metrics up to lvl only: the event names exactly those
+				ev := w2
+				evUpto := map[string]int{"B": 8, "T": 11, "E": 22}[lvl]
+				for k := evUpto; k < v3N; k++ {
+					ev[k] = 0
+				}
+				omit := xMask(&w2, 8, upto)
+				if rng.Intn(3) == 0 {
+					omit &= uint32(rng.Int63())
+				}
+				toks := v3Tokens(&w2, upto, omit)
+				if rng.Intn(4) != 0 {
+					toks = permute(rng, toks)
+				}
+				s := v3Join(ver, toks)
+				if mode == "nil-receiver" {
+					useNilReceiver = true
+				} else {
+					setHook(hookQueries(rng))
+				}
+				o, err := v3Decode(dec, s)
+				useNilReceiver = false
+				setHook(nil)
+				n++
+				src := fmt.Sprintf("%s dec=%c vector=%s", mode, dec, s)
+				if err != nil {
+					rec.Add(v3ErrBody(ver, &ev, lvl, err), src)
+					continue
+				}
+				switch lvl {
+				case "B":
+					rec.Add(v3EventBody(ver, &ev, "B", o.b.Score(), o.b.Severity().String(), false), src)
+				case "T":
+					rec.Add(v3EventBody(ver, &ev, "T", o.t.Score(), o.t.Severity().String(), false), src)
+				default:
+					rec.Add(v3EventBody(ver, &ev, "E", o.e.Score(), o.e.Severity().String(), false), src)
+				}
+			}
+		}
+	}
+	return n
 }
